@@ -18,6 +18,7 @@ import (
 	"bytes"
 	"crypto/tls"
 	"crypto/x509"
+	"encoding/binary"
 	"encoding/json"
 	"fmt"
 	"io"
@@ -235,6 +236,15 @@ func (ep *ExportingProcess) SendSet(set entities.Set) (int, error) {
 	if setType == entities.Undefined {
 		return 0, fmt.Errorf("set type is not properly defined")
 	}
+	if setType == entities.Data {
+		// The template ID in the set header is what the collector uses for decoding: it must
+		// be known, even when the set is empty, and all records must have been built for it.
+		if hdr := set.GetHeaderBuffer(); len(hdr) >= 2 {
+			if err := ep.dataSetSanityCheck(binary.BigEndian.Uint16(hdr[0:2]), set.GetRecords()); err != nil {
+				return 0, fmt.Errorf("error when doing sanity check:%v", err)
+			}
+		}
+	}
 	for _, record := range set.GetRecords() {
 		if setType == entities.Template {
 			ep.updateTemplate(record.GetTemplateID(), record.GetOrderedElementList(), record.GetMinDataRecordLen())
@@ -440,6 +450,21 @@ func (ep *ExportingProcess) sendRefreshedTemplates() error {
 	for _, templateSet := range templateSets {
 		if _, err := ep.SendSet(templateSet); err != nil {
 			return err
+		}
+	}
+	return nil
+}
+
+func (ep *ExportingProcess) dataSetSanityCheck(setID uint16, records []entities.Record) error {
+	ep.templateMutex.Lock()
+	defer ep.templateMutex.Unlock()
+
+	if _, exist := ep.templatesMap[setID]; !exist {
+		return fmt.Errorf("process: templateID %d does not exist in exporting process", setID)
+	}
+	for _, rec := range records {
+		if rec.GetTemplateID() != setID {
+			return fmt.Errorf("process: data record for templateID %d in data set with ID %d", rec.GetTemplateID(), setID)
 		}
 	}
 	return nil
